@@ -69,6 +69,10 @@ func VerifNewManager(comm *Communicator, objName string) (*VerifManager, error) 
 // Servant returns the ServantProxy whose calls are routed by this manager.
 func (v *VerifManager) Servant() *ServantProxy { return v.s }
 
+// Refresh asks the registrar again and installs the answer if it differs (what the global ticker
+// does every refresh-endpoint-interval).
+func (v *VerifManager) Refresh() error { return v.e.doFresh() }
+
 // CheckStatus runs one status check (what the global ticker does every check-status-interval).
 func (v *VerifManager) CheckStatus() { v.e.checkStatus() }
 
